@@ -609,6 +609,9 @@ class ModelSpec:
         """
         return self.update(
             formula=self.formula.differentiate(*wrt, use_sympy=use_sympy),
+            # The recorded structure describes the columns of the original
+            # formula; it must be rebuilt for the differentiated one.
+            structure=None,
         )
 
     # Only include dataclass fields when pickling.
